@@ -40,7 +40,7 @@ def spelled(p):
     toks = dslprint.tokens(p, sp)
     if rng.random() < 0.3:
         toks = dslprint.insert_comments(toks, rng, p=0.05)
-    return dslprint.layout(toks, rng.choice(['pretty', 'pretty', 'oneline', 'tight', 'tabs']), rng)[0]
+    return dslprint.layout(toks, rng.choice(['pretty', 'pretty', 'oneline', 'tight', 'tabs']), rng, eol=rng.choice(['\n', '\n', '\r\n']))[0]
 
 
 def make_items(v, protos, langs, seed, shapes, need_root=True):
